@@ -313,4 +313,10 @@ def buildMembers : List (Bytes × JVal) → Nat → Nat → List Op × Nat
     (o1 ++ [.put (some parent) k (some root)] ++ o2, n2)
 end
 
+/-- the history the model runs for a tree that came from `json_parse`: build it through the
+builder calls on a heap whose next free id is `base`, then seal the root (a parsed value is never
+`UNATTACHED`).  `UsualProofs/C03/Load.lean` proves this puts exactly `v` at id `base`. -/
+def loadOps (v : JVal) (base : Nat) : List Op :=
+  (buildOps v base).1 ++ [.seal (some (buildOps v base).2.1)]
+
 end Usual.C03
